@@ -428,7 +428,10 @@ func genMetric(r *rand.Rand, mode string) metricIn {
 				}
 			}
 		}
-		if r.Intn(5) == 0 {
+		if r.Intn(6) == 0 {
+			// the same values under swapped names, and one value under both names
+			sets = [][][2][]int{{{B("a"), B("c")}, {B("b"), B("bc")}}, {{B("a"), B("bc")}, {B("b"), B("c")}}, {{B("a"), B("c")}, {B("b"), B("c")}}, {{B("a"), B("bc")}, {B("b"), B("bc")}}}
+		} else if r.Intn(5) == 0 {
 			// two label sets that read alike once printed without quoting: {a="c b:bc"} and {a="c", b="bc"}
 			sets[0] = [][2][]int{{B("a"), B("c b:bc")}}
 			sets[1] = [][2][]int{{B("a"), B("c")}, {B("b"), B("bc")}}
@@ -520,6 +523,10 @@ func (famMetric) Gen(r *rand.Rand, n int, opt map[string]string) []any {
 // wide-window inputs: every record lies inside every window, so C11/C12 cases stay away from window edges (C09's subject)
 func wideRecs(r *rand.Rand, withV bool) []MemRec {
 	n := 1 + r.Intn(10)
+	appVals, zoneVals := []string{"a", "b", "c"}, []string{"x", "y"}
+	if r.Intn(3) == 0 {
+		appVals, zoneVals = []string{"a", "b"}, []string{"a", "b"}
+	}
 	// one case in three has only negative values (a maximum of negatives is negative, a minimum of positives positive)
 	vpool := []string{"1", "2", "3", "0.5"}
 	switch r.Intn(4) {
@@ -531,9 +538,10 @@ func wideRecs(r *rand.Rand, withV bool) []MemRec {
 	var recs []MemRec
 	for i := 0; i < n; i++ {
 		rec := MemRec{ID: i + 1, TS: []int{mBase + 1 + i, 0}, Line: B("m"), Doc: [][2][]int{}}
-		rec.Attrs = [][2][]int{{B("app"), B(pick(r, []string{"a", "b", "c"}))}}
+		// (the two labels share values: {app=a, zone=b} and {app=b, zone=a} are different groups, so are {a, a} and {b, b})
+		rec.Attrs = [][2][]int{{B("app"), B(pick(r, appVals))}}
 		if r.Intn(3) != 0 {
-			rec.Attrs = append(rec.Attrs, [2][]int{B("zone"), B(pick(r, []string{"x", "y"}))})
+			rec.Attrs = append(rec.Attrs, [2][]int{B("zone"), B(pick(r, zoneVals))})
 		}
 		if withV {
 			rec.Attrs = append(rec.Attrs, [2][]int{B("v"), B(pick(r, vpool))})
